@@ -29,6 +29,7 @@ func runC13(c *Ctx) {
 	c.Clause("C13.4 run loop: the blocking select has close and timer cases; handshake timeout and idle checks reach destroyImpl")
 	c.Clause("C13.5 0-RTT rejection resets streams map, framer, connection flow controller and sent-packet state")
 	c.Clause("C13.6 ResetForRetry requeues the outstanding 0-RTT packets on every path")
+	c.Clause("C13.11 PopulateFromUQUIC stores nothing of the connection into the shared spec's transport-parameter slice (a spec serves many connections, incl. the re-dial after Version Negotiation)")
 	c.Clause("C13.10 DropPackets(0-RTT): every packet taken out of bytes in flight is also removed from the history")
 	c.Clause("C13.9 every change of Conn.handshakeDestConnID (Retry, first Handshake packet, corrupted first Initial) is followed by connIDManager.ChangeInitialConnID")
 	c.Clause("C13.8 PackCoalescedPacket is called only on the !handshakeConfirmed edge (the repository's stated precondition)")
@@ -46,6 +47,7 @@ func runC13(c *Ctx) {
 	c.rule("C13.8", func() { c13CoalescedOnlyBeforeConfirmation(c) })
 	c.rule("C13.9", func() { c01HandshakeDestConnIDPair(c, "C13.9") })
 	c.rule("C13.10", func() { c13Rejected0RTTRemoved(c) })
+	c.rule("C13.11", func() { c13SpecNotWrittenPerConnection(c) })
 }
 
 func c13Retry(c *Ctx) {
